@@ -82,10 +82,12 @@ func (s *socket) RecvMsg() (*protocol.Message, error) {
 	// socket.  Later we can look at moving this to priority queues
 	// based on socket pipes.
 
+	// The deadline is armed once per call: a queue resize restarts the
+	// wait, it does not extend the deadline.
+	timeQ := nilQ
 	for {
 		s.Lock()
-		timeQ := nilQ
-		if s.recvExpire > 0 {
+		if timeQ == nil && s.recvExpire > 0 {
 			timeQ = time.After(s.recvExpire)
 		}
 		recvQ := s.recvQ
